@@ -321,8 +321,34 @@ impl Lexer {
         self.index += len;
     }
 
+    // byte offset in the source of the char at `char_index`
+    fn byte_offset(&self, char_index: usize) -> usize {
+        self.chars[..char_index.min(self.chars.len())]
+            .iter()
+            .map(|c| c.len_utf8())
+            .sum()
+    }
+
+    // The lexer counts in chars. Everything that reads a span afterwards (the line table,
+    // diagnostics, the end-of-file token) counts in bytes of the source, so spans leave
+    // the lexer as byte ranges.
     fn into_tokens(self) -> Vec<Token> {
+        let mut byte_offsets = Vec::with_capacity(self.chars.len() + 1);
+        let mut offset = 0;
+        for c in &self.chars {
+            byte_offsets.push(offset);
+            offset += c.len_utf8();
+        }
+        byte_offsets.push(offset);
+        let last = byte_offsets.len() - 1;
         self.tokens
+            .into_iter()
+            .map(|mut token| {
+                token.span.lo = byte_offsets[token.span.lo.min(last)];
+                token.span.hi = byte_offsets[token.span.hi.min(last)];
+                token
+            })
+            .collect()
     }
 
     fn handle_num(&mut self) {
@@ -519,7 +545,14 @@ pub(crate) fn tokenize_file(ctx: &mut StaticsContext, file_id: FileId) -> Vec<To
                         Some(c) => (c, c + 1),
                         None => (n_off, n_off),
                     };
-                let s = process_escapes_into(lexer.slice(1, content_end), ctx, file_id);
+                let content_start = lexer.byte_offset(open + 1);
+                let s = process_escapes_into(
+                    lexer.slice(1, content_end),
+                    content_start,
+                    true,
+                    ctx,
+                    file_id,
+                );
                 emit_string_token(&mut lexer, s, open, open + after_close);
             }
             '\'' => {
@@ -530,7 +563,14 @@ pub(crate) fn tokenize_file(ctx: &mut StaticsContext, file_id: FileId) -> Vec<To
                         Some(c) => (c, c + 1),
                         None => (n_off, n_off),
                     };
-                let s = process_escapes_into(lexer.slice(1, content_end), ctx, file_id);
+                let content_start = lexer.byte_offset(open + 1);
+                let s = process_escapes_into(
+                    lexer.slice(1, content_end),
+                    content_start,
+                    true,
+                    ctx,
+                    file_id,
+                );
                 emit_string_token(&mut lexer, s, open, open + after_close);
             }
             '/' => {
@@ -610,9 +650,25 @@ fn scan_for_unescaped_delim(
 }
 
 // Process escape sequences in offsets [start..end], appending decoded chars to `s`.
-fn process_escapes_into(chars: &[char], ctx: &mut StaticsContext, file_id: FileId) -> String {
+// `base` is the byte offset in the file of `chars[0]` if `chars` is a verbatim piece of the
+// file (`verbatim`); otherwise it is the offset of the literal the text was assembled from,
+// and errors point there.
+fn process_escapes_into(
+    chars: &[char],
+    base: usize,
+    verbatim: bool,
+    ctx: &mut StaticsContext,
+    file_id: FileId,
+) -> String {
     let mut s = "".to_string();
-    let base = 0;
+    // byte offset within the file of chars[p]
+    let offset_of = |p: usize| {
+        if verbatim {
+            base + chars[..p].iter().map(|c| c.len_utf8()).sum::<usize>()
+        } else {
+            base
+        }
+    };
     let mut p = 0;
     let end = chars.len();
     while p < end
@@ -642,16 +698,16 @@ fn process_escapes_into(chars: &[char], ctx: &mut StaticsContext, file_id: FileI
                     ctx.errors.push(Error::UnrecognizedEscapeSequence(
                         file_id,
                         Span {
-                            lo: base + p,
-                            hi: base + p + 1,
+                            lo: offset_of(p),
+                            hi: offset_of(p + 1),
                         },
                     ));
                 }
                 _ => ctx.errors.push(Error::UnrecognizedEscapeSequence(
                     file_id,
                     Span {
-                        lo: base + p,
-                        hi: base + p + 1,
+                        lo: offset_of(p),
+                        hi: offset_of(p + 1),
                     },
                 )),
             }
@@ -800,7 +856,15 @@ fn handle_multiline_string(lexer: &mut Lexer, ctx: &mut StaticsContext, file_id:
         }
     }
 
-    let string_val = process_escapes_into(&string_val.chars().collect::<Vec<_>>(), ctx, file_id);
+    // the indent has been stripped: the text is no longer a verbatim piece of the file
+    let literal_start = lexer.byte_offset(lo);
+    let string_val = process_escapes_into(
+        &string_val.chars().collect::<Vec<_>>(),
+        literal_start,
+        false,
+        ctx,
+        file_id,
+    );
     emit_string_token(lexer, string_val, lo, lexer.index + next);
 }
 
